@@ -14,7 +14,8 @@ TRUSTED = [
 PMS = {"rw": "ReadWrite", "ro": "ReadOnly", "na": "NoAccess"}
 LMS = {"locked": "Locked", "unlocked": "Unlocked"}
 CONTS = {"bytes": "HeapBytes", "array": "HeapByteArray<4>"}
-OPS = ["readView", "mutView", "arrayView", "index", "resize", "clone", "lock", "unlock", "ro", "rw", "na", "useAfter"]
+OPS = ["readView", "mutView", "arrayView", "index", "resize", "clone", "lock", "unlock", "ro", "rw", "na", "useAfter",
+       "asRef", "asMut", "indexMut", "copyFrom", "mutArrayView", "cloneFrom", "serialize", "zeroize"]
 # every operation of the table has one primary spelling and further spellings of the same access through other
 # traits (AsRef/AsMut/Deref/DerefMut/Index/MutBytes/…): in a forbidden cell EVERY spelling must be rejected by the
 # compiler; in a permitted cell the primary one must compile and run, the others must not fault if they compile.
@@ -53,6 +54,18 @@ VARIANTS = {
     "ro": [("mprotect_readonly", "ba", "let y = x.mprotect_readonly().unwrap(); std::hint::black_box(y.as_slice()[0]); drop(y);")],
     "rw": [("mprotect_readwrite", "ba", "let mut y = x.mprotect_readwrite().unwrap(); y.as_mut_slice()[0] = 9; std::hint::black_box(y.as_slice()[0]); drop(y);")],
     "na": [("mprotect_noaccess", "ba", "let y = x.mprotect_noaccess().unwrap(); drop(y);")],
+    # rows added to the Lean table after the third review: one per trait impl of protected.rs / bytes_serde.rs that reaches the bytes
+    "asRef": [("as_ref_row", "ba", "let s: &[u8] = AsRef::<[u8]>::as_ref(&x); std::hint::black_box(s[0]);"),
+              ("as_ref_method", "ba", "let s: &[u8] = x.as_ref(); std::hint::black_box(s[0]);")],
+    "asMut": [("as_mut_row", "ba", "AsMut::<[u8]>::as_mut(&mut x)[0] = 9;")],
+    "indexMut": [("index_mut_row", "ba", "x[0] = 9;"), ("deref_mut_row", "ba", "(&mut *x)[1] = 9;"), ("range_mut", "ba", "x[0..2].fill(3);")],
+    "copyFrom": [("copy_from_slice_row", "ba", "MutBytes::copy_from_slice(&mut x, &[5u8, 6, 7, 8]);")],
+    "mutArrayView": [("as_mut_array_row", "a", "x.as_mut_array()[0] = 9;"), ("as_mut_arr_trait_row", "a", "AsMut::<[u8; 4]>::as_mut(&mut x)[0] = 9;"),
+                     ("as_mut_array_bytes", "b", "MutByteArray::<4>::as_mut_array(&mut x)[0] = 9;")],
+    "cloneFrom": [("clone_from_row", "ba", "let mut y: T = mk(); y.clone_from(&x); std::hint::black_box(&y); drop(y);")],
+    "serialize": [("serde_json", "ba", "let s = serde_json::to_string(&x).unwrap(); std::hint::black_box(s);"),
+                  ("serde_trait", "ba", "let v = serde_json::to_value(&x).unwrap(); std::hint::black_box(v);")],
+    "zeroize": [("zeroize", "ba", "zeroize::Zeroize::zeroize(&mut x); drop(x);")],
     "useAfter": [("moved", "ba", "let y = x.mprotect_readonly(); let z = x.munlock(); drop(y); drop(z);"),
                  ("moved_lock", "ba", "let y = x.munlock(); std::hint::black_box(&x); drop(y);")],
 }
@@ -155,9 +168,14 @@ def compile_one(args):
     path = os.path.join(outdir, name + ".rs")
     open(path, "w").write(src)
     exe = os.path.join(outdir, name)
-    cmd = ["rustc", "+nightly", "--edition", "2021", "--error-format=json", "-L", "dependency=" + deps, "--extern", "dryoc=" + rlib,
-           "-o", exe, path] if run else ["rustc", "+nightly", "--edition", "2021", "--error-format=json", "--emit=metadata", "-L", "dependency=" + deps,
-           "--extern", "dryoc=" + rlib, "-o", exe + ".rmeta", path]
+    ext = ["--extern", "dryoc=" + rlib]
+    for crate in ("serde_json", "zeroize"):
+        if crate + "::" in src:
+            c = sorted(glob.glob(os.path.join(deps, "lib%s-*.rlib" % crate)), key=os.path.getmtime)
+            if c:
+                ext += ["--extern", "%s=%s" % (crate, c[-1])]
+    cmd = ["rustc", "+nightly", "--edition", "2021", "--error-format=json", "-L", "dependency=" + deps] + ext + ["-o", exe, path] if run else \
+          ["rustc", "+nightly", "--edition", "2021", "--error-format=json", "--emit=metadata", "-L", "dependency=" + deps] + ext + ["-o", exe + ".rmeta", path]
     p = subprocess.run(cmd, stdout=subprocess.PIPE, stderr=subprocess.PIPE, text=True, env=ENV)
     codes = []
     for l in p.stderr.splitlines():
